@@ -177,6 +177,9 @@ def stepOracle (d : DState) (s : PState) (cmd : String) (args : List String) : D
       let id := idt.toNat?.getD 0
       if s.cfg.checks && !(reg.classes.any (fun r => r.id == id)) then
         (d, [if cmd == "vfinal" then s!"raised method_table {id}" else s!"raised unknown_class {id}"])
+      else if cmd == "vfinal" && s.staticId == 0 then
+        -- no static class: `final` of anything is a misuse; checked policies report it
+        (d, [if s.cfg.checks then s!"raised method_table {id}" else "illegal"])
       else if cmd == "vfinal" && s.cfg.checks && id != s.staticId then (d, [s!"raised method_table {id}"])
       else ({ d with ovars := (d.ovars.filter (fun e => e.1 != nm)) ++ [(nm, id)] }, ["vptr ok"])
     | _, _ => (d, ["illegal"])
